@@ -108,7 +108,7 @@ cfg["C08"] = {
                          "c=3,numa=0,or=1500", "c=3,numa=0,or=500", "c=2,numa=0,or=500,mp=200", "c=3,numa=0,or=1000,grid=1", "c=2,numa=1,ob=1,mode=2,d=0", "c=2,numa=1,or=2000,d=-1000"), "samples": 2},
     ],
     "bounds": "one inductive step from an arbitrary pre-state U = R + w (R = usage of the other workloads, all components symbolic) for alloc(k<=3)/rollback-alloc and realloc (keep-bind, bind, unbind, grow, shrink)/rollback-realloc on 2-3 cores with and without NUMA; CPU totals on the quarter-core grid (utils.Round executed exactly on grid floats)",
-    "outside": "decimal CPU totals off the quarter-core grid; more than 3 cores; JSON/mapstructure fidelity; the cobalt manager's goroutine fan-out (call); release is the same SetNodeResourceUsage(decr) step as rollback-alloc",
+    "outside": "decimal CPU totals off the quarter-core grid; more than 3 cores; JSON/mapstructure fidelity; the manager layer is checked with model plugins (the real cpumem plugin cannot be constructed from package cobalt: its store field is unexported), so manager + real plugin are composed by argument; goroutine interleavings in cobalt.call (one sequential schedule)",
     "assumptions": node_assume + [plugin_stubs, "the workload being re-allocated is part of the recorded usage (invariant established by every allocation step, which is itself checked here)"],
 }
 cfg["C15"] = {
@@ -191,6 +191,8 @@ cfg["C09"] = {
     "outside": "values off the grid; rounding of the final division; more than 3 plugins; Go's map iteration order is represented by the plugin permutation; call()'s real goroutine scheduling",
     "assumptions": [cob_stubs],
 }
+cfg["C08"]["runs"].append({"dir": COB, "inline_go": True, "quick": P("VerifManagerLedger", "op=0,fault=6", "op=1,fault=6", "op=2,fault=4"), "thorough": P("VerifManagerLedger", "op=0,fault=6", "op=1,fault=6", "op=2,fault=4"), "samples": 3})
+cfg["C08"]["bounds"] += "; resource-manager layer (cobalt.Manager.Alloc/RollbackAlloc/Realloc/RollbackRealloc/SetNodeResourceUsage with the real call/PCR code) over two model plugins with scalar usage, count<=2, one fault at any plugin call position"
 cfg["C07"]["runs"].append({"dir": COB, "inline_go": True, "quick": P("VerifMerge", "p=2,n=2", "p=1,n=2"), "thorough": P("VerifMerge", "p=2,n=2", "p=1,n=2", "p=3,n=2"), "samples": 2})
 
 cfg["C16"] = {
